@@ -265,6 +265,10 @@ mod frame;
 mod packet_id;
 mod udp_frame_sink;
 
+/// Verification hooks (only present with `--cfg uflow_verif`).
+#[cfg(uflow_verif)]
+pub mod verif;
+
 /// Server-related connection objects and parameters.
 pub mod server;
 
